@@ -613,7 +613,7 @@ package keeper
 // that drops out, no validator twice, no zero update for a validator Tendermint does not have; and the
 // previous-state set is rewritten to that top-N set.
 //@ func (k Keeper) UpdateTendermintValidators(ctx sdk.Ctx) (updates []abci.ValidatorUpdate)
-//@   props C05
+//@   props C05 C09
 //@   uses valinv idxinv
 //@   requires 0 <= pp_max_validators && pp_max_validators <= 9223372036854775807
 //@   requires forall a Bytes :: pos.prevhas[a] ==> pos.has[a]
@@ -648,6 +648,7 @@ package keeper
 //@   loop 2 invariant forall a Bytes :: (TOPN(a) ==> pos.prevhas[a] && pos.prev[a] == PWR(a)) && (!TOPN(a) ==> pos.prevhas[a] == (old(pos.prevhas[a]) && nls.at[a] > #rangeindex))
 //@   ensures [order] forall a Bytes, b Bytes :: IDXD(a) && IDXD(b) && (PWR(a) > PWR(b) || (PWR(a) == PWR(b) && bytes_lt(a, b))) ==> pit.rank[a] < pit.rank[b]
 //@   ensures [prev-is-topN] forall a Bytes :: pos.prevhas[a] == TOPN(a) && (TOPN(a) ==> pos.prev[a] == PWR(a))
+//@   ensures [jailed-out@C09] forall a Bytes :: pos.has[a] && pos.vals[a].Jailed ==> !pos.prevhas[a] && (old(pos.prevhas)[a] ==> (exists j int :: 0 <= j && j < len(updates) && OWN(updates[j]) == a && updates[j].Power == 0))
 //@   ensures [applicable] forall j int :: 0 <= j && j < len(updates) ==> updates[j].Power >= 0 && (updates[j].Power == 0 ==> old(pos.prevhas)[OWN(updates[j])])
 //@   ensures [nodup] forall i int, j int :: 0 <= i && i < j && j < len(updates) ==> OWN(updates[i]) != OWN(updates[j])
 //@   ensures [sound] forall j int :: 0 <= j && j < len(updates) ==> (updates[j].Power > 0 ==> TOPN(OWN(updates[j])) && updates[j].Power == PWR(OWN(updates[j])) && CHANGED(OWN(updates[j]))) && (updates[j].Power == 0 ==> !TOPN(OWN(updates[j])))
@@ -746,7 +747,7 @@ package keeper
 // mature unstaking validator is paid out and removed (C06); the updates returned are the ones computed before the removals,
 // and every previous-state entry still has its record afterwards (the precondition of the next EndBlock).
 //@ func EndBlocker(ctx sdk.Ctx, k Keeper) (updates []abci.ValidatorUpdate)
-//@   props C05 C06 C04
+//@   props C05 C06 C04 C09
 //@   uses bankinv valinv idxinv queueinv mininv
 //@   requires 0 <= pp_max_validators && pp_max_validators <= 9223372036854775807
 //@   requires forall a Bytes :: pos.prevhas[a] ==> pos.has[a]
